@@ -7,6 +7,8 @@ import sys
 import threading
 import time
 
+from spacepackets.util import ByteFieldGenerator
+
 from .. import vclock, wire
 from ..oracles import trace_summary
 from ..world import EnumPlan, InternalError, Plan, RandomPlan, Runner, World
@@ -46,7 +48,7 @@ class SilencePlan(Plan):
 
 
 def gen_script(rng, nh=None):
-    base = {"mode": "ack", "closure": False, "seg": 4, "size": 0, "fs": "mem", "ack_limit": 2, "nak_limit": 2, "check_limit": 2,
+    base = {"mode": "ack", "closure": False, "seg": rng.choice([4, 4, None]), "maxpkt": rng.choice([64, 36]), "size": 0, "fs": "mem", "ack_limit": 2, "nak_limit": 2, "check_limit": 2,
             "imm_nak": rng.random() < 0.5, "cks": rng.choice(["crc32", "crc32c", "modular", "null"]), "crc": rng.random() < 0.2,
             "disp": rng.random() < 0.4, "content": 0, "dest": rng.choice(["file", "dir"])}
     if rng.random() < 0.6:
@@ -56,9 +58,10 @@ def gen_script(rng, nh=None):
         base["fh_dst"] = {c: rng.choice(codes) for c in ("POSITIVE_ACK_LIMIT_REACHED", "NAK_LIMIT_REACHED", "FILE_CHECKSUM_FAILURE", "CHECK_LIMIT_REACHED") if rng.random() < 0.6}
     hist = []
     for _ in range(nh if nh is not None else rng.choice([1, 1, 2, 3])):
-        hist.append({"kind": rng.choice(H_KINDS), "mode": rng.choice(["ack", "unack"]), "closure": rng.random() < 0.5, "size": rng.choice([0, 3, 9, 17]),
-                     "seed": rng.randrange(1 << 30), "at": rng.randrange(1, 9)})
-    t = {"kind": rng.choice(T_KINDS), "mode": rng.choice(["ack", "unack"]), "closure": rng.random() < 0.5, "seed": rng.randrange(1 << 30), "at": rng.randrange(1, 7)}
+        hist.append({"kind": rng.choice(H_KINDS), "mode": rng.choice(["ack", "unack"]), "closure": rng.random() < 0.5, "size": rng.choice([0, 3, 9, 25]),
+                     "seed": rng.randrange(1 << 30), "at": rng.randrange(1, 9), "idw": rng.choice([2, 2, 1, 4])})
+    t = {"kind": rng.choice(T_KINDS), "mode": rng.choice(["ack", "unack"]), "closure": rng.random() < 0.5, "seed": rng.randrange(1 << 30), "at": rng.randrange(1, 7),
+         "idw": rng.choice([2, 2, 1, 4])}
     return {"base": base, "hist": hist, "t": t}
 
 
@@ -71,7 +74,13 @@ def gen_cases(tier, seed):
     n = 300 if tier == "quick" else 8000
     for i in range(n):
         k = rng.choice([2, 2, 3, 4])
-        cases.append({"t": "siblings", "scripts": [gen_script(rng, nh=rng.choice([0, 0, 1])) for _ in range(k)], "order_seed": rng.randrange(1 << 30)})
+        scripts = [gen_script(rng, nh=rng.choice([0, 0, 1])) for _ in range(k)]
+        share = rng.random() < 0.5
+        if share:
+            # several handlers of one entity: same MIB objects (remote entity configuration table) for all of them
+            for sc in scripts[1:]:
+                sc["base"] = dict(scripts[0]["base"])
+        cases.append({"t": "siblings", "scripts": scripts, "order_seed": rng.randrange(1 << 30), "share_mib": share})
     n = 6 if tier == "quick" else 60
     for i in range(n):
         cases.append({"t": "threads", "scripts": [[gen_script(rng, nh=rng.choice([0, 1, 2])) for _ in range(6 if tier == "quick" else 12)] for _ in range(4)],
@@ -84,9 +93,11 @@ def gen_cases(tier, seed):
 
 def setup_transaction(w: World, spec, kind, content_tag):
     """prepares files/config for the next transaction on world w; returns (plan, actions, max_expiries)"""
-    size = {"empty": 0, "small": 3, "multi_loss": 13, "multi_random": 21, "md_only": 0, "cancelled": 13, "silenced": 9}.get(kind, spec.get("size", 9))
+    size = {"empty": 0, "small": 3, "multi_loss": 23, "multi_random": 29, "md_only": 0, "cancelled": 23, "silenced": 9}.get(kind, spec.get("size", 9))
     w.cfg["metadata_only"] = kind == "md_only"
     w.cfg["size"] = size
+    # the width of the destination id given in the put request may differ from request to request (the MIB is keyed by value)
+    w.dst_id = ByteFieldGenerator.from_int(spec.get("idw", 2), 2)
     w.cfg["req_mode"] = spec["mode"]
     w.cfg["req_closure"] = spec["closure"]
     w.cfg["mode"] = spec["mode"]  # (oracle helpers read the effective mode from here)
@@ -232,6 +243,11 @@ def run_siblings_case(case):
     solos = [solo(sc) for sc in scripts]
     rng = random.Random(case["order_seed"])
     worlds = [World(dict(sc["base"])) for sc in scripts]
+    if case.get("share_mib"):
+        for w in worlds[1:]:
+            w.S.h.remote_cfg_table = worlds[0].S.h.remote_cfg_table
+            w.D.h.remote_cfg_table = worlds[0].D.h.remote_cfg_table
+        obs["sibling_cases_sharing_mib"] = 1
     try:
         # generators: each yields after every scheduler round
         results = [None] * len(scripts)
